@@ -57,6 +57,17 @@ pub const ERROR_KINDS: [io::ErrorKind; 7] = [
     io::ErrorKind::ConnectionReset,
 ];
 
+/// Does the input START WITH a byte-order mark or a UTF-16 signature?  Only then may the sniff of the first piece make the
+/// result depend on how the input is cut (C02: "first piece >= 4 bytes when the input starts with a BOM or a UTF-16
+/// signature"); an input that merely begins with the first byte(s) of a mark is an ordinary input.
+pub fn starts_with_signature(input: &[u8]) -> bool {
+    input.starts_with(&[0xEF, 0xBB, 0xBF])
+        || input.starts_with(&[0xFE, 0xFF])
+        || input.starts_with(&[0xFF, 0xFE])
+        || input.starts_with(&[0x00, 0x3C, 0x00, 0x3F])
+        || input.starts_with(&[0x3C, 0x00, 0x3F, 0x00])
+}
+
 pub type Log = Rc<RefCell<Vec<EnvEv>>>;
 
 pub struct Chunked {
